@@ -983,6 +983,53 @@ func validateSpaceAndExits(c *Ctx, r *Rep, fn, validate *ssa.Function, d *dpRend
 			r.Check(unresolved > 0 && emptyRdn > 0, "early-rejections-present|"+fk, c.FnPos(fn), "an unresolvable attribute name and an empty RDN each have an exit that answers false", sprintf("unresolvable name: %d exit(s), empty RDN: %d exit(s)", unresolved, emptyRdn))
 		}
 	}
+	// --- what is compared: wherever the validator (or the function holding its table) compares two attribute types, one
+	// comes from the profile's attribute list and the other from the configuration's subject. Operands whose origins
+	// are not expressed in the validator's own parameters (a comparison moved into a helper) are left alone.
+	for vi, vf := range []*ssa.Function{validate, fn} {
+		if vi == 1 && fn == validate {
+			continue
+		}
+		var profP, contP string
+		for _, prm := range vf.Params {
+			switch typeShort(c, prm.Type()) {
+			case "config.CertificateProfile", "*config.CertificateProfile":
+				profP = "P(" + c.FuncKey(vf) + "." + prm.Name() + ")"
+			case "config.CertificateContent", "*config.CertificateContent":
+				contP = "P(" + c.FuncKey(vf) + "." + prm.Name() + ")"
+			}
+		}
+		if profP == "" || contP == "" {
+			continue
+		}
+		pv := c.newProv()
+		side := func(v ssa.Value) string {
+			o := strings.Join(pv.Origins(v), " , ")
+			hasP, hasC := strings.Contains(o, profP), strings.Contains(o, contP)
+			switch {
+			case hasP && !hasC:
+				return "profile"
+			case hasC && !hasP:
+				return "subject"
+			case hasP && hasC:
+				return "both"
+			}
+			return ""
+		}
+		n := 0
+		for _, ci := range callsIn(vf) {
+			if !strings.HasSuffix(calleeFullName(ci), "ObjectIdentifier).Equal") || len(ci.Common().Args) != 2 {
+				continue
+			}
+			a, b := side(ci.Common().Args[0]), side(ci.Common().Args[1])
+			if a == "" || b == "" {
+				continue
+			}
+			n++
+			ok := (a == "profile" && b == "subject") || (a == "subject" && b == "profile")
+			r.Check(ok, sprintf("compares-profile-with-subject|%s#%d", c.FuncKey(vf), n), c.Pos(ci.Pos()), "an attribute type of the profile's list is compared with an attribute type of the subject", a+" with "+b)
+		}
+	}
 	// --- allowOther: each mandatory attribute is searched for; found is false until an attribute equals it
 	for _, b := range fn.Blocks {
 		for _, ins := range b.Instrs {
